@@ -33,6 +33,31 @@ def filt_wrap(repo_src, dst):
     f.files = {'gen_nttw.c': txt}
     return f
 GROUPS = {'iters': Group('iters', filt, c=['props/C03/contracts_iters.c'], repo_cpp=[])}
+def filt_bfly(repo_src, dst):
+    f = extract.Filter(repo_src, dst)
+    f.check_macros()
+    it = cify.cify(f, N, 'NTT_Goldilocks::NTT_iters', 'NTT_Goldilocks_NTT_iters', [], extra_rules=[(r'Goldilocks::parcpy', 'Goldilocks_parcpy')])
+    body, head = cify.loop_body(it, 3)
+    if not re.match(r'\s*u_int64_t i = 0; i < \(batchSize >> 1\); i\+\+\s*$', head) or 'offset1' not in body or 'offset2' not in body:
+        raise extract.ExtractError('M2-body: NTT_iters: the butterfly loop (4th loop, over i) was not found as expected')
+    # M2-op: the overloaded product of two elements ; callee names ; M2-abs: table reads through the accessor
+    body, n1 = re.subn(r'\b(\w+) \* (a\[[^\]]*\])', r'Goldilocks_mul_v(\1, \2)', body)
+    body = body.replace('Goldilocks::add(', 'Goldilocks_add(').replace('Goldilocks::sub(', 'Goldilocks_sub(')
+    body, n2 = re.subn(r'\broot\(', 'NTT_Goldilocks_root(', body)
+    body, n3 = re.subn(r'\broots\[([^\]]*)\]', r'vf_roots_at(\1)', body)
+    if n1 < 1 or (n2 + n3) < 1:
+        raise extract.ExtractError('M2-body: butterfly: expected the element product w * a[..] and a twiddle read (found %d products, %d root() calls, %d roots[] reads)' % (n1, n2, n3))
+    d = f.get_function('ntt_goldilocks.hpp', 'root', in_class=True)
+    rb_, n4 = re.subn(r'\broots\[([^\]]*)\]', r'vf_roots_at(\1)', d['body'])
+    if n4 != 1:
+        raise extract.ExtractError('M2-abs: root(): expected exactly one read of roots[..]')
+    txt = '/* M2: root() from ntt_goldilocks.hpp line %d (by value), butterfly group = body of the loop over i of NTT_iters */\n' % d['line']
+    txt += 'static GElement NTT_Goldilocks_root(u_int32_t domainPow, u_int64_t idx)\n%s\n' % rb_
+    txt += 'void vf_bfly(GElement *a, u_int64_t b, u_int64_t batchSize, u_int64_t s, u_int64_t si, u_int64_t i, u_int64_t mdiv2i, u_int64_t mi, u_int64_t mdiv2, u_int64_t rm, u_int64_t rb, u_int64_t re, u_int64_t rs, u_int64_t ncols, u_int64_t domainPow, u_int64_t size, u_int64_t nBatches, u_int64_t sInc, u_int64_t m)\n%s\n' % body
+    f.note('M2-body', N, 1, 0, 0, 'butterfly group of NTT_iters')
+    f.files = {'gen_bfly.c': txt}
+    return f
+GROUPS['bfly'] = Group('bfly', filt_bfly, c=['props/C03/contracts_bfly.c'], repo_cpp=[])
 def filt_ext(repo_src, dst):
     f = extract.Filter(repo_src, dst)
     f.check_macros()
@@ -74,6 +99,9 @@ UNITS = [
          functions=['NTT_Goldilocks::log2 (src/ntt_goldilocks.hpp)']),
     Unit('BR', 'iters', 'BR', harness='hl_BR', light=True, checks=CHK, functions=['BR bit reversal (src/%s)' % N]),
 ]
+UNITS.append(Unit('NTT_butterfly', 'bfly', 'vf_bfly', harness='hl_bfly', light=True, checks=CHK, flags=['--unwind', '3', '--unwinding-assertions'], loops='unwind 3 (ncols <= 2)', timeout=900,
+                  bounded='at most 8 rows, 2 columns, object parameter s <= 5; every consistent (stage, sInc, si, batch, i), all element values',
+                  functions=['NTT_Goldilocks::NTT_iters - butterfly group (body of the loop over i) and NTT_Goldilocks::root (src/%s, ntt_goldilocks.hpp) [C-ified: twiddle selection and butterfly arithmetic]' % N]))
 for _sz, _nc in SHAPES:
     if _sz and _nc:
         UNITS.append(Unit('NTT_wrapper@%dx%d' % (_sz, _nc), 'wrap_%d_%d' % (_sz, _nc), 'NTT_Goldilocks_NTT', harness='hl_NTT', light=True, checks=CHK + ['--memory-leak-check', '--no-malloc-may-fail'],
